@@ -265,7 +265,7 @@ func runC02own(c *core.Ctx) {
 			}
 			vd := p.Prov().Desc(mu.Value)
 			if len(vd) == 1 && glob("fld(TxnStatus.commitTS,*", vd[0]) {
-				g, w := p.GuardedByAtom(batchResolve, in, "F:(const(0) < fld(TxnStatus.ttl,*")
+				g, w := p.GuardedByAtom(batchResolve, in, "T:(fld(TxnStatus.ttl,*) < const(1))")
 				a.check(g, fname(batchResolve)+" live lock refused", in, "", "GC batch resolution records an outcome although the status still has a ttl: "+a.w(w))
 			}
 		})
